@@ -184,3 +184,160 @@ func init() {
 	h.Prop("bookkeeping_vs_reference", 30000, 400000, genCase, run)
 	h.Prop("getline_var_leaves_record_alone", 12000, 200000, genKeep, runKeep)
 }
+
+// ---------------------------------------------------------------------------
+// long runs: next / nextfile / exit from inside (nested) function calls, many
+// thousands of times in one run, against a closed-form model of the counters
+
+type LongCase struct {
+	Files  []int  `json:"files"`  // number of records of each file operand
+	Depth  int    `json:"depth"`  // the abandoning statement runs this many calls deep
+	What   string `json:"what"`   // next | nextfile | getline-next
+	Mod    int    `json:"mod"`    // a record with (FNR % Mod == Rem) abandons
+	Rem    int    `json:"rem"`
+	ExitAt int    `json:"exit_at"` // NR at which exit runs inside the function (0: never)
+	Status int    `json:"status"`
+}
+
+func genLong(t *rapid.T) LongCase {
+	c := LongCase{Depth: rapid.SampledFrom([]int{0, 1, 1, 2, 5, 30}).Draw(t, "depth"), What: rapid.SampledFrom([]string{"next", "next", "nextfile", "getline-next"}).Draw(t, "what"),
+		Mod: rapid.IntRange(1, 4).Draw(t, "mod"), Status: rapid.IntRange(0, 3).Draw(t, "status")}
+	c.Rem = rapid.IntRange(0, c.Mod-1).Draw(t, "rem")
+	if c.What == "nextfile" {
+		// many short files
+		for i := rapid.SampledFrom([]int{3, 40, 1100, 1300}).Draw(t, "nfiles"); i > 0; i-- {
+			c.Files = append(c.Files, 1+(i*7)%5)
+		}
+	} else {
+		for i := rapid.IntRange(1, 3).Draw(t, "nfiles"); i > 0; i-- {
+			c.Files = append(c.Files, rapid.SampledFrom([]int{0, 1, 7, 600, 1100, 2300}).Draw(t, "nrec"))
+		}
+	}
+	if rapid.IntRange(0, 3).Draw(t, "exit?") == 0 {
+		total := 0
+		for _, n := range c.Files {
+			total += n
+		}
+		if total > 0 {
+			c.ExitAt = rapid.IntRange(1, total).Draw(t, "exitat")
+		}
+	}
+	return c
+}
+
+func runLong(x *h.Ctx, c LongCase) string {
+	dir := h.TempDir("c11l")
+	defer os.RemoveAll(dir)
+	// distinct contents are irrelevant; files of equal length share one file on disk
+	paths := map[int]string{}
+	var args []string
+	for _, n := range c.Files {
+		p, ok := paths[n]
+		if !ok {
+			p = fmt.Sprintf("%s/f%d", dir, n)
+			var sb strings.Builder
+			for i := 1; i <= n; i++ {
+				fmt.Fprintf(&sb, "%d\n", i)
+			}
+			os.WriteFile(p, []byte(sb.String()), 0o644)
+			paths[n] = p
+		}
+		args = append(args, p)
+	}
+	var stmt string
+	switch c.What {
+	case "next":
+		stmt = "next"
+	case "nextfile":
+		stmt = "nextfile"
+	default:
+		stmt = "{ if ((getline) > 0) got++; next }" // consumes one more record (if any is left), then abandons it
+	}
+	exitStmt := ""
+	if c.ExitAt > 0 {
+		exitStmt = fmt.Sprintf("if (NR >= %d) exit %d; ", c.ExitAt, c.Status)
+	}
+	src := fmt.Sprintf(`function leave(d) { if (d > 0) return leave(d - 1) + 1; %sif (FNR %% %d == %d) %s; return 0 }
+{ seen++; x = 1 + leave(%d) * 2; kept++ }
+END { print NR, FNR, seen + 0, kept + 0, got + 0, x + 0, $0 }
+`, exitStmt, c.Mod, c.Rem, stmt, c.Depth)
+	// model
+	nr, fnr, seen, kept, got := 0, 0, 0, 0, 0
+	last := ""
+	exited := false
+	status := 0
+files:
+	for _, n := range c.Files {
+		fnr = 0
+		for i := 1; i <= n; {
+			nr++
+			fnr = i
+			last = fmt.Sprint(i)
+			i++
+			seen++
+			if c.ExitAt > 0 && nr >= c.ExitAt {
+				exited, status = true, c.Status
+				break files
+			}
+			if fnr%c.Mod == c.Rem {
+				switch c.What {
+				case "next":
+					continue
+				case "nextfile":
+					continue files
+				default:
+					// plain getline: next record of the main input, across files
+					if i <= n {
+						nr++
+						fnr = i
+						last = fmt.Sprint(i)
+						i++
+						got++
+					} else {
+						// the following operands are consulted for one more record
+						// (only modelled when this is the last non-empty file: otherwise discard)
+						return discardLong(x, c)
+					}
+					continue
+				}
+			}
+			kept++
+		}
+	}
+	_ = exited
+	xval := 0
+	if kept > 0 {
+		xval = 1 + 2*c.Depth
+	}
+	want := fmt.Sprintf("%d %d %d %d %d %d %s\n", nr, fnr, seen, kept, got, xval, last)
+	prog, err := parser.ParseProgram([]byte(src), nil)
+	if err != nil {
+		return "harness program: " + err.Error() + "\n" + src
+	}
+	var out strings.Builder
+	cfg := &interp.Config{Stdin: strings.NewReader(""), Output: &out, Error: &out, Argv0: "goawk", Environ: []string{}, Args: args, NoExec: true, NoFileWrites: true}
+	st, err := interp.ExecProgram(prog, cfg)
+	if err != nil {
+		return fmt.Sprintf("a run that abandons records from inside a function %d calls deep failed: %v\nfiles (records each): %v\nprogram:\n%s", c.Depth, err, c.Files, src)
+	}
+	if out.String() != want || st != status {
+		return fmt.Sprintf("counters after abandoning records from inside a function (%s, %d calls deep)\nfiles (records each): %v\nprogram:\n%s\ngoawk: status %d, NR FNR seen kept got x $0 = %q\nmodel: status %d, %q", c.What, c.Depth, c.Files, src, st, out.String(), status, want)
+	}
+	x.Class(c.What)
+	if seen-kept >= 1000 {
+		x.Class("abandoned>=1000")
+		x.Nontrivial("")
+	} else if seen-kept >= 1 {
+		x.Nontrivial("")
+	}
+	return ""
+}
+
+func discardLong(x *h.Ctx, c LongCase) string {
+	x.Discard("getline at the end of a file operand (crosses into the next operand; covered by bookkeeping_vs_reference)")
+	return ""
+}
+
+func init() {
+	h.Prop("abandon_from_functions_long_runs", 600, 12000, genLong, runLong)
+}
